@@ -146,7 +146,8 @@ var c38Delims = []string{"", "/", "%"}
 // one side (client or direct) of a run
 type c38Side struct {
 	st   storage.Storage
-	vids []string // version ids in order of first appearance
+	back storage.Storage // the storage behind st (st itself on the direct side): seeding / observing the composite operations
+	vids []string        // version ids in order of first appearance
 	ups  []storage.UploadId
 	upB  []int
 	upK  []int
@@ -343,6 +344,10 @@ func (s *c38Side) op(f []string) (proj string, err error) {
 	K := func(i int) storage.ObjectKey { return storage.MustNewObjectKey(c38Keys[n(i)%len(c38Keys)]) }
 	st := s.st
 	switch f[0] {
+	case "CX":
+		return s.opCX(f)
+	case "MFX":
+		return s.opMFX(f)
 	case "P": // P,b,k,cid,ct,meta,tags,cls,cond
 		o := &storage.PutObjectOptions{Tags: c20Tags(n(6)), Metadata: c38Meta(n(5)), StorageClass: c20Class(n(7))}
 		switch n(8) {
@@ -890,7 +895,7 @@ func (c38) Run(in string, scratch string) Result {
 		return fail("acquire", err)
 	}
 	defer c38Release(stk)
-	sides := []*c38Side{{st: stk.client}, {st: stk.direct.st}}
+	sides := []*c38Side{{st: stk.client, back: stk.served.st}, {st: stk.direct.st, back: stk.direct.st}}
 	// identical initial state, built through each side's own API
 	for _, s := range sides {
 		for i := 0; i < 2; i++ {
@@ -935,6 +940,10 @@ func (c38) Run(in string, scratch string) Result {
 			tok = "NI"
 		} else if pc == "BadOp" {
 			tok = "BadOp"
+		} else if f[0] == "CX" {
+			tok = "I:" + c38CXToken(pc)
+		} else if f[0] == "MFX" {
+			tok = "I:" + c38MFXToken(pc)
 		}
 		if pc != pd {
 			cm, dm := c38Fields(pc), c38Fields(pd)
